@@ -26,7 +26,9 @@ DESIGN_REF = "§5 C08"
 project = WP.make_project(ID)
 relevant_verdict = WP.make_relevant(ID)
 
-PLAIN = [b"example.org", b"a.b", b"sub.example.org", b"x-y.z", b"EXAMPLE.org", b"org", b"b", b"e.org", b"1.2", b"-", b"a-", b"Ab.Cd", b"example.org.uk", b"ple.org", b".org", b"a.", b"..", b"a.b.c.d.e.f"]
+PLAIN = [b"example.org", b"a.b", b"sub.example.org", b"x-y.z", b"EXAMPLE.org", b"org", b"b", b"e.org", b"1.2", b"-", b"a-", b"Ab.Cd", b"example.org.uk", b"ple.org", b".org", b"a.", b"..", b"a.b.c.d.e.f",
+         # the configuration side of the case-insensitivity: names written with capitals, also at their very end
+         b"example.ORG", b"CAMPUS.X", b"a.B", b"SITE-7"]
 REGEX = [b"/^.*@rx[0-9]+\\.net$/", b"/@up/", b"/^[a-c]+$", b"/\\.org$/", b"/@(a|b)\\.c$/", b"/^x/", b"/@.*b/", b"/example/",
          # expressions that tell an octet from its printable escape: they see the User-Name as it was sent, not as it is logged
          b"/^.@/", b"/^..@/", b"/%/", b"/^[^%]*$/"]
